@@ -32,6 +32,8 @@ def _zero_ext(frm, to):
     return False
 
 
+# in-crate functions kept as named calls in normal forms (their own behaviour is the subject of another property)
+OPAQUE_CALLS = {"string_table::StringTable::get", "string_table::StringTable::get_raw"}
 _PROG = [None]
 _SINGLE_OK = {}
 
@@ -49,6 +51,8 @@ def single_ok_payload(qual):
         return None
     if qual in _SINGLE_OK:
         return _SINGLE_OK[qual]
+    if qual in OPAQUE_CALLS:
+        return None
     res = None
     fns = prog.facts.fns.get(qual) or []
     if len(fns) == 1 and not any("&mut" in x for x in fns[0].get("sig", {}).get("inputs", [])):
